@@ -1,0 +1,27 @@
+//! Verification hooks for Huffman coding. Only compiled with the `verif_hooks` feature.
+//!
+//! Thin wrappers that make crate private types and functions usable from an external monitor.
+
+use super::huff0_encoder::{HuffmanEncoder, HuffmanTable};
+use crate::bit_io::BitWriter;
+use alloc::vec::Vec;
+
+/// The table description (if `with_table`) and the data as one stream, as the compressor writes it
+pub fn encode_1x(table: &HuffmanTable, data: &[u8], with_table: bool) -> Vec<u8> {
+    let mut writer = BitWriter::new();
+    HuffmanEncoder::new(table, &mut writer).encode(data, with_table);
+    writer.dump()
+}
+
+/// The table description (if `with_table`), jump table and the data as four streams, as the compressor writes it
+pub fn encode_4x(table: &HuffmanTable, data: &[u8], with_table: bool) -> Vec<u8> {
+    let mut writer = BitWriter::new();
+    HuffmanEncoder::new(table, &mut writer).encode4x(data, with_table);
+    writer.dump()
+}
+
+/// The weights the compressor derives from its table (including the last one which is not transmitted)
+pub fn weights(table: &HuffmanTable) -> Vec<u8> {
+    let mut writer = BitWriter::new();
+    HuffmanEncoder::new(table, &mut writer).weights()
+}
